@@ -107,13 +107,13 @@ def run_unit(args):
         stubs.install()
         load_harnesses(prop)
         h = REGISTRY[hname]
-        opts = dict(rlimit=4_000_000, timeout_ms=30000, max_paths=200000, max_decisions=6000, div_check=True)
+        opts = dict(rlimit=0, timeout_ms=4000, max_paths=200000, max_decisions=6000, div_check=True)
         opts.update(h.engine_opts)
         if tier == 'thorough':
             opts['rlimit'] = opts['rlimit'] * 4
             opts['timeout_ms'] = opts['timeout_ms'] * 4
-        o_rl = opts.pop('oblig_rlimit', 20_000_000)
-        o_to = opts.pop('oblig_timeout_ms', 60000)
+        o_rl = opts.pop('oblig_rlimit', 0)
+        o_to = opts.pop('oblig_timeout_ms', 6000)
         if tier == 'thorough':
             o_rl *= 4
             o_to *= 4
